@@ -306,4 +306,83 @@ theorem C13_inv_step_rekey_counterexample :
     Inv s ∧ ¬ Inv (step po0 s (.get .request (some 1) 2)) ∧ C13_guard s (.get .request (some 1) 2) = false := by
   decide
 
+/-! ### the uint64 wrap of `GCounter++`
+
+`setGC` (request put under a root context) and `setUnpin` (last pin released under a root context) do
+`gcItem.GCounter++` on a uint64: the model writes `(c + 1) % 2^64`.  At `c = 2^64 − 1` the root's counter
+falls to 0 (Σ drops by 2^64 − 1) while `gcSize` still grows by one.  The step/history theorems above need
+**no further guard clause** for it: under `Inv s` every counter is at most Σ = gcSize, and the single-address
+branch of the guard already demands `gcSize + 1 < 2^64` (`noWrap_of_inv`; the multi-address branch never
+increments a counter).  A counter of `2^64 − 1` only arises by `GCounter--` on a `GCounter = 0` entry left by
+`ModeSetSync` — the shapes `inv-sync-zero-counter` the guard excludes (`C13_guard_excludes_sync`,
+`C13_guard_excludes_pin_zero_counter`). -/
+
+/-- under the invariant no `GCounter++` can wrap while `gcSize + 1` fits a uint64: every counter `c` in the gc
+index satisfies `c + 1 < 2^64` (indeed `c ≤ gcSize`). -/
+theorem C13_inv_excludes_wrap (s : State) (hw : GcWF s.db) (hi : Inv s) (hfit : s.db.gcSize + 1 < two64) :
+    ∀ (k : GcKey) (c : Nat), SMap.get k s.db.gc = some c → c + 1 < two64 :=
+  noWrap_of_inv s.db hw hi hfit
+
+/-- the wrapping increment is unreachable in guarded histories: at the end of every history from the empty
+store all of whose steps satisfy the guard, every gc counter is at most `gcSize` — so a counter of `2^64 − 1`
+(the only value whose `++` wraps) would need `gcSize = 2^64 − 1`, where the guard of the incrementing calls
+(`gcSize + 1 < 2^64`) is false. -/
+theorem C13_wrap_unreachable_histories (po : Addr → Nat) (cap : Nat) (ops : List Op)
+    (hg : guardH po (init cap) ops = true) (k : GcKey) (c : Nat)
+    (h : SMap.get k (runH po (init cap) ops).db.gc = some c) : c ≤ (runH po (init cap) ops).db.gcSize := by
+  have hw : GcWF (runH po (init cap) ops).db := runH_gcWF po ops (init cap) (gcWF_init cap)
+  have hi : Inv (runH po (init cap) ops) := C13_inv_histories_partial po cap ops hg
+  unfold Inv at hi
+  rw [hi]
+  exact get_le_gcSum k _ c hw h
+
+example : ∃ (s : State) (k : GcKey) (c : Nat), GcWF s.db ∧ Inv s ∧ s.db.gcSize + 1 < two64 ∧
+    SMap.get k s.db.gc = some c :=
+  ⟨sFile, ⟨1, 1, 1⟩, 2, C13_reachable_gcWF po0 sFile (reachable_runOps _ _ (Reachable.init _)),
+    by decide, by decide, by decide⟩
+
+/-- the state of the wrap witness: an uploaded chunk 1 is synced (`GCounter = 0` entry keyed by itself) and
+then pinned under itself as root (`GCounter--` on 0, written directly: `2^64 − 1`).
+Real code: `put up - 80:aa; set sync - 80; set pin 80 80` → `G[1:1:80=18446744073709551615] S=0`
+(`corpus/C13/gcounter-wrap-minimal.ops`; found by seed case g8, `corpus/C13/gcounter-wrap-increment.ops`). -/
+def sWrap : State := runOps s0 [.put .upload none [(1, [])], .set .sync none [1], .set .pin (some 1) [1]]
+
+/-- the wrapping `GCounter++` (excluded from `C13_inv_step_partial` by its premise `Inv s`, not by the guard —
+the call is an ordinary single-address request put and `C13_guard` is `true`): in `sWrap` the root's counter is
+`2^64 − 1`; one more chunk cached under that root makes the counter 0 — Σ falls by `2^64 − 1` while `gcSize`
+grows by 1, so the step does not even preserve the difference `gcSize − Σ`.  (A step theorem without the
+premise `Inv s`, "guarded steps move gcSize and Σ by the same amount", is therefore false.)
+Real code: `… ; put req 80 81:bb` → `G[1:1:80=0] S=1`. -/
+theorem C13_inv_step_wrap_counterexample :
+    Reachable po0 sWrap ∧
+    (let op : Op := .put .request (some 1) [(2, [])]
+     C13_guard sWrap op = true ∧ ¬ Inv sWrap ∧
+     sWrap.db.gcSize = 0 ∧ gcSum sWrap.db.gc = two64 - 1 ∧
+     (step po0 sWrap op).db.gcSize = 1 ∧ gcSum (step po0 sWrap op).db.gc = 0 ∧
+     (step po0 sWrap op).db.gc = [(⟨1, 1, 1⟩, 0)]) :=
+  ⟨reachable_runOps _ _ (Reachable.init _), by decide⟩
+
+/-- … and the same wrap through `setUnpin` (the second `GCounter++` site): releasing the last pin of a chunk
+under the root whose counter is `2^64 − 1`. -/
+theorem C13_inv_step_wrap_unpin_counterexample :
+    let op : Op := .set .unpin (some 1) [1]
+    C13_guard sWrap op = true ∧ ¬ Inv sWrap ∧
+    (step po0 sWrap op).db.gcSize = 1 ∧ gcSum (step po0 sWrap op).db.gc = 0 := by decide
+
+/-- the history that produces the `2^64 − 1` counter is not a guarded one: both the sync of a stored chunk and
+the pin over the `GCounter = 0` entry it left are excluded shapes. -/
+theorem C13_guard_excludes_pin_zero_counter :
+    C13_guard (runOps s0 [.put .upload none [(1, [])], .set .sync none [1]]) (.set .pin (some 1) [1]) = false ∧
+    guardH po0 s0 [.put .upload none [(1, [])], .set .sync none [1], .set .pin (some 1) [1]] = false := by decide
+
+/-- trigger `bounded-sum-wrapped-counter`: while the wrapped counter (`2^64 − 1`) sits in the index, a collection
+run that recycles another file reports `done = true` with Σ GCounter = `2^64 − 1`, above every capacity.
+Real code: `put up - 80:aa; set sync - 80; set pin 80 80; put req 40 40:01; cap 1; pyr 40 -; gcsel; gcevict`. -/
+theorem C13_bounded_wrapped_counter_counterexample :
+    let s := runOps s0 [.put .request (some 5) [(5, [])], .put .upload none [(6, [])], .set .sync none [6],
+                        .set .pin (some 6) [6], .setCapacity 1, .gcSelect]
+    let r := gcEvict s (pyrFun [(5, some [])])
+    s.runTarget = gcTarget s.capacity ∧ r.out = .gcDone 1 true [5] ∧ r.st.db.gcSize = 0 ∧
+    gcSum r.st.db.gc = two64 - 1 ∧ ¬ (gcSum r.st.db.gc ≤ s.capacity) := by decide
+
 end Aurora.Localstore
